@@ -16,18 +16,18 @@ import (
 // C07: Reed-Solomon coder recovers any erasure pattern within capability.
 
 type c07Case struct {
-	Kind  string `json:"kind"`  // small, large, limits
-	Coder string `json:"coder"` // cauchy, vandermonde
-	D     int    `json:"d"`
-	P     int    `json:"p"`
-	Len   int    `json:"len,omitempty"`
-	G     int    `json:"g,omitempty"`
-	Lo    int    `json:"lo,omitempty"`
-	Hi    int    `json:"hi,omitempty"`
-	MissD []int  `json:"missd,omitempty"`  // explicit: missing data shards
-	AvailP []int `json:"availp,omitempty"` // explicit: available parity shards
-	K     int    `json:"k,omitempty"`      // tight: number of missing data shards = number of available parity shards
-	NoSSSE3 bool `json:"nossse3,omitempty"` // run with the SSSE3 dispatch flag forced off
+	Kind    string `json:"kind"`  // small, large, limits
+	Coder   string `json:"coder"` // cauchy, vandermonde
+	D       int    `json:"d"`
+	P       int    `json:"p"`
+	Len     int    `json:"len,omitempty"`
+	G       int    `json:"g,omitempty"`
+	Lo      int    `json:"lo,omitempty"`
+	Hi      int    `json:"hi,omitempty"`
+	MissD   []int  `json:"missd,omitempty"`   // explicit: missing data shards
+	AvailP  []int  `json:"availp,omitempty"`  // explicit: available parity shards
+	K       int    `json:"k,omitempty"`       // tight: number of missing data shards = number of available parity shards
+	NoSSSE3 bool   `json:"nossse3,omitempty"` // run with the SSSE3 dispatch flag forced off
 }
 
 func c07NewCoder(kind string, d, p, g int) (rsec16.Coder, error) {
